@@ -432,6 +432,44 @@ def f8_program(width=2, second=None):
     return p
 
 
+def overlap_program(n=4, wide=3):
+    """directed family: producers on EVERY rank whose outputs have overlapping destination rank sets that are NOT in the
+    relay-lacks-output class (under `bc.1.N.1.1` placement an instance runs on rank  second parameter mod N):
+      TA(k, k)  A -> TB(k, k+1)            B -> TC(k, k+1 .. k+2)      sets {k+1} and {k+1, k+2}: the later output reaches a
+                                                                        new rank behind one that an earlier output served
+      TE(k, k)  C -> TD(k, k .. k+wide)    one output to the producer's own rank and the `wide` next ones: relays of a
+                                                                        binomial / chain tree see the root among the consumers
+    every consumer only reads; every relay consumes what it forwards"""
+    p = Prog()
+    p.gvals = []
+    p.ndata = 3 * n
+
+    def cls(name, lo2, hi2, flows):
+        c = Cls(name)
+        c.locals = [Local("k", 'R', C(0), C(n - 1), C(1)), Local("j", 'R', lo2, hi2, C(1))]
+        c.params = [0, 1]
+        c.flows = flows
+        return c
+    k = L(0)
+    kk = [('E', k), ('E', k)]
+    ta = cls("TA", k, k, [
+        Flow("A", 'B', [_dep_in(('M', [k])), _dep_out(('T', 2, 0, [('E', k), ('E', B("add", k, C(1)))]))]),
+        Flow("B", 'B', [_dep_in(('M', [B("add", k, C(n))])),
+                        _dep_out(('T', 3, 0, [('E', k), ('S', B("add", k, C(1)), B("add", k, C(2)), C(1))]))])])
+    te = cls("TE", k, k, [
+        Flow("C", 'B', [_dep_in(('M', [B("add", k, C(2 * n))])),
+                        _dep_out(('T', 4, 0, [('E', k), ('S', k, B("add", k, C(wide)), C(1))]))])])
+    tb = cls("TB", B("add", k, C(1)), B("add", k, C(1)), [Flow("A", 'R', [_dep_in(('T', 0, 0, kk))])])
+    tc = cls("TC", B("add", k, C(1)), B("add", k, C(2)), [Flow("B", 'R', [_dep_in(('T', 0, 1, kk))])])
+    td = cls("TD", k, B("add", k, C(wide)), [Flow("C", 'R', [_dep_in(('T', 1, 0, kk))])])
+    p.classes = [ta, te, tb, tc, td]
+    p.template = "overlap"
+    why = []
+    assert jdfgen.wf(p, why), why
+    assert mem_private(p) and not value_hazards(p)
+    return p
+
+
 def _t_multiout(g):
     """S(k) with 2-3 output flows; flow j feeds T_j(k, 0..m_j-1): under most placements the destination
     rank sets of the outputs of one producer overlap without being equal (the relay-lacks-output class
